@@ -19,7 +19,8 @@ LEVEL_TEXT = ('Generated Linen module programs (<= 30 draws; params, noise strea
               ' Further streams: keys inside nn.jit across applies, flag toggling within one process, scopes lifted'
               ' together with a transformed module (attribute sub-modules, repeated uses, function-style lifts), random push / draw / lift'
               ' programs on bare flax.core Scopes (lifts of a subset of the streams), Rngs handed to nnx.scan / nnx.vmap (split recipe or broadcast).'
-              ' Round e: core.scope programs, nnx.transform_rngs (K8).')
+              ' Round e: core.scope programs, nnx.transform_rngs (K8).'
+              ' Round g: nnx.reseed with key arrays.')
 LEVEL_NOTE = ('With flax_fix_rng_separator off, path-concatenation collisions are expected: only the count / stream-seed / sibling-name '
               'distinctness clauses are asserted there. The 32-bit truncation of the path hash can collide by chance (p < 1e-6 per run at '
               'these sizes); such a collision is reported as inconclusive when the full SHA-1 digests differ.')
